@@ -171,8 +171,19 @@ func (o *vzOracles) onFinalize(nd *vzNode, fr tmdriver.FinalizeBlockRequest) {
 		o.violate("C03", "not-contiguous", "%s finalized height %d after height %d (incarnation %d)", nd.ident(), h, last, nd.inc)
 	}
 	o.checkValidatorSetOfHeader(nd, fr.Header)
-	// the chain prescribes the validators of h+1 (C01/C07 bookkeeping)
-	o.prescribed[h+1] = fr.Header.NextValidatorSet
+	// the chain prescribes the validators of h+1 (C01/C07 bookkeeping). The lists are taken only
+	// from a header whose lists hash to the hashes its block hash covers, and the first one wins
+	// (a node that was fed an altered list must not redefine the chain for the other oracles).
+	if _, ok := o.prescribed[h+1]; !ok {
+		nvs := fr.Header.NextValidatorSet
+		if len(nvs.Validators) > 0 {
+			kh, _ := o.w.fx.HashScheme.PubKeys(tmconsensus.ValidatorsToPubKeys(nvs.Validators))
+			ph, _ := o.w.fx.HashScheme.VotePowers(tmconsensus.ValidatorsToVotePowers(nvs.Validators))
+			if bytes.Equal(kh, nvs.PubKeyHash) && bytes.Equal(ph, nvs.VotePowerHash) {
+				o.prescribed[h+1] = nvs
+			}
+		}
+	}
 	// C01: the driver is asked to finalize only a block the node holds a certificate for
 	o.checkFinalizeHasCertificate(nd, fr)
 }
@@ -515,7 +526,43 @@ func (o *vzOracles) checkSparseAuthenticSet(nd *vzNode, where, kind string, h ui
 			}
 			pk, ok := vs.Validators[idx].PubKey.(gcrypto.Ed25519PubKey)
 			if !ok || !ed25519.Verify(ed25519.PublicKey(pk), sb, sg.Sig) {
-				o.violate("C05", "unauthentic-signature/"+where+"/"+kind, "%s %s: the %s signature filed under height %d round %d hash %x for validator %d does not verify for that target", nd.ident(), where, kind, h, r, hash, idx)
+				// diagnosis: does it verify for anything nearby?
+				diag := "verifies for nothing tried"
+				for vi, vv := range vs.Validators {
+					for _, k2 := range []string{"prevote", "precommit"} {
+						for dr := -1; dr <= 1; dr++ {
+							vt2 := tmconsensus.VoteTarget{Height: h, Round: uint32(int(r) + dr), BlockHash: hash}
+							var sb2 []byte
+							if k2 == "prevote" {
+								sb2, _ = tmconsensus.PrevoteSignBytes(vt2, o.w.fx.SignatureScheme)
+							} else {
+								sb2, _ = tmconsensus.PrecommitSignBytes(vt2, o.w.fx.SignatureScheme)
+							}
+							if pk2, ok2 := vv.PubKey.(gcrypto.Ed25519PubKey); ok2 && ed25519.Verify(ed25519.PublicKey(pk2), sb2, sg.Sig) {
+								diag = fmt.Sprintf("it verifies as a %s by validator %d for round %d", k2, vi, vt2.Round)
+							}
+						}
+					}
+				}
+				for fi, pv := range o.w.fx.PrivVals {
+					for dh := -1; dh <= 1; dh++ {
+						for _, k2 := range []string{"prevote", "precommit"} {
+							for _, hh := range []string{hash, ""} {
+								vt2 := tmconsensus.VoteTarget{Height: uint64(int(h) + dh), Round: r, BlockHash: hh}
+								var sb2 []byte
+								if k2 == "prevote" {
+									sb2, _ = tmconsensus.PrevoteSignBytes(vt2, o.w.fx.SignatureScheme)
+								} else {
+									sb2, _ = tmconsensus.PrecommitSignBytes(vt2, o.w.fx.SignatureScheme)
+								}
+								if pv.Val.PubKey.Verify(sb2, sg.Sig) {
+									diag += fmt.Sprintf("; verifies as %s by fixture validator %d for height %d hash %x", k2, fi, vt2.Height, trunc(hh))
+								}
+							}
+						}
+					}
+				}
+				o.violate("C05", "unauthentic-signature/"+where+"/"+kind, "%s %s: the %s signature filed under height %d round %d hash %x for validator %d does not verify for that target (%s); prescribed set has %d validators", nd.ident(), where, kind, h, r, hash, idx, diag, len(vs.Validators))
 			}
 		}
 	}
